@@ -103,6 +103,70 @@ def one_case(ctx, k):
         shutil.rmtree(d, ignore_errors=True)
 
 
+def bam_case(ctx, k):
+    """The criteria do not depend on the container the reads come in: the same reads as unaligned BAM and as FASTQ, the same
+    filter options - the same reads written and the same counts (the FASTQ path is what the reference cases judge)."""
+    import json
+    from .. import gen_cli as G, clirun
+
+    rng = ctx.rng("c11bam", k)
+    recs = []
+    for i in range(rng.randint(8, 40)):
+        n = rng.randint(1, 40)
+        s = G.rnd(rng, n, rng.choice(["ACGT", "ACGTN", "ACGTNN"]))
+        recs.append((f"r{i}", s, G.gen_quals(rng, n, rng.choice(["high", "mixed", "decay", "full", "q0"]))))
+    opts = []
+    if rng.random() < 0.6:
+        opts += ["--max-ee", rng.choice(["0", "0.5", "1", "2", "5"])]
+    if rng.random() < 0.5:
+        opts += ["--max-aer", rng.choice(["0.01", "0.1", "0.3"])]
+    if rng.random() < 0.4:
+        opts += ["--max-n", rng.choice(["0", "1", "0.2"])]
+    if rng.random() < 0.4:
+        opts += ["-m", str(rng.randint(2, 25))]
+    if rng.random() < 0.3:
+        opts += ["-M", str(rng.randint(15, 40))]
+    if not opts:
+        opts = ["--max-ee", "1"]
+    if rng.random() < 0.3:
+        opts = ["-q", "15"] + opts
+    cores = ["-j", "2"] if rng.random() < 0.3 else []
+    d = os.path.join(ctx.scratch, f"bam{k}")
+    os.makedirs(d, exist_ok=True)
+    try:
+        with open(os.path.join(d, "in.fastq"), "w") as f:
+            f.write(fastx.format_fastq(recs))
+        with open(os.path.join(d, "in.bam"), "wb") as f:
+            f.write(fastx.format_ubam(recs))
+        res = {}
+        for kind in ("fastq", "bam"):
+            argv = opts + cores + ["--json", f"{kind}.json", "-o", f"{kind}.out.fastq", f"in.{kind}"]
+            r = clirun.run(argv, d, tag=kind, timeout=90)
+            res[kind] = (r, argv)
+        ctx.count("bam_cases")
+        case = dict(kind="bam", k=k, argv=res["bam"][1])
+        ctx.case(("bam", str(opts), str(recs[:3])))
+        if res["fastq"][0].rc != 0:
+            ctx.count("bam_case_fastq_run_failed")
+            return
+        if res["bam"][0].rc != 0:
+            ctx.violation("bam-run-failed", f"exit {res['bam'][0].rc} for BAM input although the same reads as FASTQ are processed: "
+                          f"{res['bam'][0].err.strip().splitlines()[-1][:200] if res['bam'][0].err.strip() else ''}; argv={res['bam'][1]}", case, klass="bam")
+            return
+        a = open(os.path.join(d, "fastq.out.fastq")).read()
+        b = open(os.path.join(d, "bam.out.fastq")).read()
+        ja = json.load(open(os.path.join(d, "fastq.json")))["read_counts"]
+        jb = json.load(open(os.path.join(d, "bam.json")))["read_counts"]
+        if a != b or ja != jb:
+            ra, rb = fastx.parse_fastq(a, strict=False), fastx.parse_fastq(b, strict=False)
+            only_b = [x[0] for x in rb if x not in ra][:5]
+            only_a = [x[0] for x in ra if x not in rb][:5]
+            ctx.violation("bam-vs-fastq", f"the same reads and filters give different results for FASTQ and BAM input: only with FASTQ {only_a}, only with BAM {only_b}; "
+                          f"counts {ja['filtered']} vs {jb['filtered']}; argv={res['bam'][1]}", case, klass="bam")
+    finally:
+        shutil.rmtree(d, ignore_errors=True)
+
+
 def run_shard(ctx):
     climon.require_hooks(ctx)
     for k in range(ctx.scale(90, 3000)):
@@ -116,6 +180,8 @@ def run_shard(ctx):
         c14.cli_case(ctx, ctx.shard * 100000 + 50000 + k)
     for k in range(ctx.scale(5, 80)):
         c14.cli_pair_case(ctx, ctx.shard * 100000 + 50000 + k)
+    for k in range(ctx.scale(6, 100)):
+        bam_case(ctx, ctx.shard * 100000 + 80000 + k)
 
 
 def verdict_hook(merged, tier):
@@ -130,5 +196,8 @@ def replay(ctx, case):
     if case.get("kind") in ("cli", "clipair"):
         from . import c14
         (c14.cli_case if case["kind"] == "cli" else c14.cli_pair_case)(ctx, case["k"])
+        return
+    if case.get("kind") == "bam":
+        bam_case(ctx, case["k"])
         return
     one_case(ctx, case["k"])
